@@ -68,11 +68,13 @@ def make_hook(prog: Program, extra: Callable[[ast.Call, Evaluator], Any] = None)
             sub.env[p] = v
         for k, v in kwargs.items():
             sub.env[k] = v
+        from engine.peval import is_generator
+        gen = is_generator(fi.node)
         try:
             sub.exec_block(fi.node.body)
         except Ret as r:
-            return r.value
-        return None
+            return sub.env.get("__yields__", []) if gen else r.value
+        return sub.env.get("__yields__", []) if gen else None
 
     def hook(call: ast.Call, ev: Evaluator) -> Any:
         if extra is not None:
